@@ -190,18 +190,11 @@ theorem beginSpan_z (s0 : St α) (scan : Scan) (Z : Nat) (i : Int) (h0 : 0 ≤ i
     have := h.size
     omega
 
-/-- indicator -/
-def bi (b : Bool) : Nat := if b then 1 else 0
-
 /-- the number of `begin_span` calls of the loop of `process_edges_below` over the pending windings
 `l`, entered with winding state `w` and flag `first` -/
 def gapsFrom (rule : Slab.Rule) : WindingState → Bool → List Int → Nat
   | _, _, [] => 0
   | w, first, k :: l => bi (!first && w.isIn) + gapsFrom rule (w.update rule k) false l
-
-/-- the winding fold over pending edges (never merge vertices) -/
-def pfold (rule : Slab.Rule) (w : WindingState) (l : List Int) : WindingState :=
-  sfold rule w (l.map fun k => (false, k))
 
 theorem pfold_nil (rule : Slab.Rule) (w : WindingState) : pfold rule w [] = w := rfl
 
@@ -365,7 +358,7 @@ theorem ar_end (scan : Scan) : (aboveResult scan).aboveEnd = scan.aboveEnd := by
   unfold aboveResult; split <;> rfl
 
 theorem split_facts {s0 : St α} {scan : Scan} (hok : ScanOk s0 scan) (hsem : ScanSem s0 scan) (hc : Coh s0)
-    (hH : HorizAgree s0.tolerance) (hsp : scan.splitEvent = true) :
+    (hG : ScanAgree s0 scan) (hsp : scan.splitEvent = true) :
     (aboveResult scan).aboveStart = scan.aboveStart ∧ 1 ≤ scan.aboveStart ∧
     scan.aboveStart < s0.active.size ∧ 0 ≤ scan.windingBefore.spanIndex ∧
     scan.windingBefore.spanIndex + 1 ≤
@@ -374,7 +367,7 @@ theorem split_facts {s0 : St α} {scan : Scan} (hok : ScanOk s0 scan) (hsem : Sc
   have hme : scan.mergeEvent = false := by
     cases hm : scan.mergeEvent
     · rfl
-    · have := hok.merge_room hH hm; omega
+    · have := hG.1 hm; omega
   have hZ := Z1_ge hok hc
   refine ⟨by simp [aboveResult, hme], hok.split_pos hsp, split_lt hc hin, ?_, ?_⟩
   · rw [hsem.wb]; exact (Wat_good s0 _).inn hin
@@ -455,7 +448,7 @@ theorem InvB_final {s0 : St α} {scan : Scan} {Z2 : Nat} {s : St α} {L : List (
 spans begun are the `in` gaps strictly inside the (sorted, merged) pending edges, plus one for a
 split event -/
 theorem processEdgesBelow_rel (s0 : St α) (scan : Scan) (hok : ScanOk s0 scan) (hsem : ScanSem s0 scan)
-    (hc : Coh s0) (hH : HorizAgree s0.tolerance) (sc : Scan) :
+    (hc : Coh s0) (hG : ScanAgree s0 scan) (sc : Scan) :
     ⦃fun s => ⌜sc = aboveResult scan ∧ RelA s0 scan s⌝⦄ (processEdgesBelow sc : SM α Unit)
     ⦃safePost A fun _ s => RelZ s0 scan
       (s0.spans.size - cntIn s0 scan.aboveStart scan.aboveEnd + bi scan.splitEvent +
@@ -481,7 +474,7 @@ theorem processEdgesBelow_rel (s0 : St α) (scan : Scan) (hok : ScanOk s0 scan) 
     have hsp := ‹sc.splitEvent = true›
     have h0 := ‹(sc.aboveStart == 0) = true›
     rw [hsc, ar_split] at hsp
-    have := split_facts hok hsem hc hH hsp
+    have := split_facts hok hsem hc hG hsp
     rw [hsc, this.1] at h0
     simp at h0
     omega
@@ -489,21 +482,21 @@ theorem processEdgesBelow_rel (s0 : St α) (scan : Scan) (hok : ScanOk s0 scan) 
     have hsc := (‹sc = aboveResult scan ∧ RelA s0 scan _›).1
     have hsp := ‹sc.splitEvent = true›
     rw [hsc, ar_split] at hsp
-    have := split_facts hok hsem hc hH hsp
+    have := split_facts hok hsem hc hG hsp
     rw [hsc, this.1]
     omega
   case vc5 =>
     have hsc := (‹sc = aboveResult scan ∧ RelA s0 scan _›).1
     have hsp := ‹sc.splitEvent = true›
     rw [hsc, ar_split] at hsp
-    have := split_facts hok hsem hc hH hsp
+    have := split_facts hok hsem hc hG hsp
     rw [hsc, ar_wb]
     exact this.2.2.2.1
   case vc6 =>
     have hsc := (‹sc = aboveResult scan ∧ RelA s0 scan _›).1
     have hsp := ‹sc.splitEvent = true›
     rw [hsc, ar_split] at hsp
-    have := split_facts hok hsem hc hH hsp
+    have := split_facts hok hsem hc hG hsp
     rw [hsc, ar_wb]
     exact this.2.2.2.2
   case vc10 =>
